@@ -4,7 +4,7 @@ Two kinds of cases:
   'msgs': a generated description + a history of {received line, register, unregister} run through the real
           SecopClient receive loop (real __rxthread called synchronously on a scripted connection object)
   'e2e' : values written / read through a real SecopClient <-> TCPServer <-> Dispatcher <-> Module with a
-          recording fake driver on loopback (optionally through a Proxy node in front), see harness/c12_e2e.py
+          recording fake driver on loopback, see harness/c12_e2e.py
 """
 import base64
 import json
@@ -31,8 +31,8 @@ RULE = ('msgs: random descriptions (1-3 modules incl. one named "None" sometimes
         'report), callbacks of the three kinds at node/module/parameter level returning, raising UnregisterCallback or '
         'raising an exception at scripted invocation numbers, plus all op sequences of length <= 2 (thorough: 3) over an '
         '11-letter alphabet on a fixed description; e2e: every datatype x valid values written through '
-        'SecopClient.setParameter / read through readParameter against a real node over loopback TCP (thorough: also '
-        'through a Proxy node).  Non-trivial: at least one accepted message (msgs) / one completed write (e2e); '
+        'SecopClient.setParameter / read through readParameter against a real node over loopback TCP (the Proxy '
+        'node variant of the design is not implemented).  Non-trivial: at least one accepted message (msgs) / one completed write (e2e); '
         'distinct = distinct (description, ops, behaviours) / (datainfo, value, driver result)')
 ASSUMPTIONS = [
     'module names and accessible names of a description contain no colon and give distinct internal names per module '
